@@ -30,10 +30,11 @@ RULE = ("one case = one generated model text (scalar variables of every variabil
 TRUSTED = ["lxml parses the serialised text back to the element tree that was serialised (exercised on every case)",
            "tree.flatten as the producer of the flat model: the property is about the backend's image of the flat AST",
            "the abstraction of the flat AST handed to the model (`abstract` below) reads the same fields the generator reads"]
-ASSUMPTIONS = ["the backend's subset: scalar variables (array dimensions and subscripts are not representable: the generator "
-               "drops them without notice — reported as an observation, not generated), equations built from Expression / "
+ASSUMPTIONS = ["the backend's subset: scalar variables (array dimensions and subscripts are not representable: raising on them "
+               "is accepted, exporting them as scalars is finding C25-F3, separate stream), equations built from Expression / "
                "Primary / ComponentRef / function-call / when nodes (an if-expression, array literal or if-/for-equation "
                "makes generate() raise KeyError: generated in a separate stream where raising is the expected outcome)",
+               "a when-equation with elsewhen branches has no XML image: raising on it is accepted, dropping the branches is not",
                "string literals are not generated (a string and a number with the same text share one encoding)",
                "literal texts are Python's str(value); the oracle compares them by value"]
 
@@ -157,7 +158,7 @@ class Gen:
         if r.random() < 0.3:
             decls.append("parameter Integer n0 = %d;" % r.randint(0, 5))
             self.reals.append("n0")
-        nd = r.randint(0, 1)
+        nd = 1 if self.stream == "elsewhen" else r.randint(0, 1)
         for i in range(nd):
             decls.append("discrete Real d%d%s;" % (i, attrs()))
         for i in range(r.randint(0, 2)):
@@ -213,6 +214,11 @@ class Gen:
                 eqs.append("if %s then %s = 1; else %s = 2; end if;" % (self.boolean(1), states[0], states[0]))
             else:
                 eqs.append("%s = sum({%s, %s});" % (states[0], self.real(1), self.real(1)))
+        if self.stream == "arrays":
+            n = r.randint(2, 3)
+            decls.append("Real w[%d];" % n)
+            for i in range(1, n + 1):
+                eqs.append("w[%d] = %s;" % (i, "w[%d] + %s" % (i - 1, self.real(1)) if i > 1 else self.real(1)))
         if self.stream == "signed-attr":
             decls.append("Real z0(start=-%s);" % self.lit())
             if r.random() < 0.5:
@@ -288,12 +294,26 @@ def run_real(text):
 SUPPORTED_EXPR = ("Primary", "ComponentRef", "Expression")
 
 
+REJECT_ARRAYS = [False]   # set by probe_cfg: does the tree refuse subscripts / array variables (fix C25-3)?
+
+
+def subscripted(node):
+    return any(i is not None for arr in node.indices for i in arr)
+
+
+def is_array_symbol(sym):
+    from pymoca import ast
+    return any(not (isinstance(d, ast.Primary) and d.value is None) for arr in sym.dimensions for d in arr)
+
+
 def abstract_expr(node):
     """What XmlGenerator reads of an expression node."""
     from pymoca import ast
     if isinstance(node, ast.Primary):
         return ["lit", str(node.value)]
     if isinstance(node, ast.ComponentRef):
+        if REJECT_ARRAYS[0] and subscripted(node):
+            return ["other", "ComponentRef-with-subscripts"]
         return ["ref", node.name]
     if isinstance(node, ast.Expression):
         op = node.operator.name if isinstance(node.operator, ast.ComponentRef) else node.operator
@@ -328,7 +348,8 @@ def abstract_flat(flat):
                 if isinstance(n, ast.Primary) and n.value is None:
                     return None
                 return abstract_expr(n)
-            vs.append({"name": s.name, "type": s.type.name, "prefixes": list(s.prefixes), "start": attr(s.start),
+            vs.append({"name": s.name, "type": s.type.name, "prefixes": list(s.prefixes),
+                       "start": ["other", "array-symbol"] if REJECT_ARRAYS[0] and is_array_symbol(s) else attr(s.start),
                        "value": attr(s.value), "fixed": bool(s.fixed.value)})
         classes.append({"name": c.name, "vars": vs, "eqs": [abstract_eq(e) for e in c.equations]})
     return classes
@@ -458,6 +479,8 @@ def oracle(xml, flat):
             at = attrs_of(k)
             if at.get("name") != s.name:
                 return "class %s: component %r where variable %r is expected" % (c.name, at.get("name"), s.name)
+            if is_array_symbol(s):
+                return "array variable %s is rendered as a scalar component: its dimensions are lost" % s.name
             if set(at) - {"name", "variability"}:
                 return "component %s: attributes %s" % (s.name, sorted(at))
             if at.get("variability") != expected_variability(s.prefixes):
@@ -504,15 +527,81 @@ def has_other(a):
     return False
 
 
+def has_arrays(flat):
+    """Does the flat model hold an array variable or a subscripted reference (anywhere the walker goes)?"""
+    from pymoca import ast
+    found = [False]
+
+    def visit(n):
+        if isinstance(n, ast.ComponentRef) and subscripted(n):
+            found[0] = True
+        if isinstance(n, ast.Symbol) and is_array_symbol(n):
+            found[0] = True
+        if isinstance(n, ast.Node):
+            for k, v in n.__dict__.items():
+                if k not in ("parent", "scope", "__deepcopy__"):
+                    visit(v)
+        elif isinstance(n, dict):
+            for v in n.values():
+                visit(v)
+        elif isinstance(n, list):
+            for v in n:
+                visit(v)
+    for c in flat.classes.values():
+        visit(list(c.symbols.values()))
+        visit(c.equations)
+    return found[0]
+
+
+def has_elsewhen(a):
+    if isinstance(a, list):
+        if a and a[0] == "when" and (a[3] or a[4]):
+            return True
+        return any(has_elsewhen(x) for x in a)
+    if isinstance(a, dict):
+        return any(has_elsewhen(x) for x in a.values())
+    return False
+
+
 def nonliteral_attr(classes):
     return any(v[f] is not None and v[f][0] != "lit" for c in classes for v in c["vars"] for f in ("start", "value"))
 
 
+PROBES = {
+    "exprAttrs": "model M Real x(start=-1); equation x = 1; end M;",
+    "rejectElse": "model M discrete Real d; Real x; equation x = time; when x > 1 then d = 1; elsewhen x > 2 then d = 2; end when; end M;",
+}
+PROBES["rejectArrays"] = "model M Real w[2]; equation w[1] = 1; w[2] = w[1]; end M;"
+FLAG_OF_FINDING = {"C25-F2": "exprAttrs", "C25-F1": "rejectElse", "C25-F3": "rejectArrays"}
+
+
 def probe_cfg(ctx):
-    r = run_real("model M Real x(start=-1); equation x = 1; end M;")
-    cfg = {"exprAttrs": r["raised"] is None}
-    ctx.extra["model_cfg_probed"] = cfg
+    """The two points on which the tree may differ (proposed fixes C25-1 / C25-2) are read off two probe inputs;
+    once a finding is marked fixed in known/C25.json the corresponding behaviour is no longer probed but
+    required (the model is asked for the fixed variant whatever the probe says)."""
+    probed = {"exprAttrs": run_real(PROBES["exprAttrs"])["raised"] is None,
+              "rejectElse": run_real(PROBES["rejectElse"])["raised"] is not None,
+              "rejectArrays": run_real(PROBES["rejectArrays"])["raised"] is not None}
+    cfg = dict(probed)
+    for k in ctx.known:
+        if k.get("status") == "fixed" and k["id"] in FLAG_OF_FINDING:
+            cfg[FLAG_OF_FINDING[k["id"]]] = True
+    ctx.extra["model_cfg_probed"] = probed
+    ctx.extra["model_cfg_used"] = cfg
+    REJECT_ARRAYS[0] = cfg["rejectArrays"]
     return cfg
+
+
+def categorize(msg):
+    if "elsewhen branches are missing" in msg:
+        return "XML does not mirror the flat model: elsewhen branches of a when-equation are missing"
+    if "its dimensions are lost" in msg or "[..]" in msg:
+        return "XML does not mirror the flat model: array dimensions / subscripts are lost"
+    for key in ("literal", "reference", "operator", "component", "equation elements", "component elements", "variability",
+                "classDefinition", "unexpected text", "call", "when"):
+        if key in msg:
+            return "XML does not mirror the flat model (%s)" % key
+    return "XML does not mirror the flat model"
 
 
 def check_case(ctx, text, cfg, drv, stream="main", stats=None):
@@ -532,10 +621,13 @@ def check_case(ctx, text, cfg, drv, stream="main", stats=None):
     ctx.count("eqs:%d" % min(sum(len(c["eqs"]) for c in classes), 8))
     ctx.count("vars:%d" % min(sum(len(c["vars"]) for c in classes), 12))
     ctx.count("classes:%d" % len(classes))
+    arrays = has_arrays(r["flat"])
+    case["facts"] = {"elsewhen": has_elsewhen(classes), "nonliteral_attr": nonliteral_attr(classes),
+                     "unsupported_node": has_other(classes), "arrays": arrays}
     unsupported = has_other(classes) or (nonliteral_attr(classes) and not cfg["exprAttrs"])
     if r["raised"] is not None:
         ctx.count("real:raised:" + r["raised"])
-        if not has_other(classes):
+        if not has_other(classes) and not has_elsewhen(classes) and not arrays:
             ctx.violation("generate() raises on a model whose flat AST holds only nodes the backend handles"
                           + (" (start / value is not a plain literal)" if nonliteral_attr(classes) else ""),
                           case, expected="XML", observed=r["raised"])
@@ -546,10 +638,9 @@ def check_case(ctx, text, cfg, drv, stream="main", stats=None):
         else:
             msg = oracle(r["xml"], r["flat"])
             if msg:
-                ctx.violation("XML does not mirror the flat model: " + msg.split(":")[0] if False else "XML does not mirror the flat model: " + msg,
-                              case, expected="one element per flat node", observed=msg)
+                ctx.violation(categorize(msg), case, expected="one element per flat node, mirroring it", observed=msg)
     if drv is not None:
-        ans = drv.ask({"op": "xml.encode", "exprAttrs": cfg["exprAttrs"], "classes": classes})
+        ans = drv.ask({"op": "xml.encode", "exprAttrs": cfg["exprAttrs"], "rejectElse": cfg["rejectElse"], "classes": classes})
         if not ans.get("ok"):
             from harness.common import HarnessError
             raise HarnessError("model driver rejected %s: %s" % (text, ans))
@@ -598,8 +689,8 @@ def run(ctx):
         check_case(ctx, c["case"]["text"] if "case" in c else c["text"], cfg, drv, "corpus")
     for stream, text in FIXED_CASES:
         check_case(ctx, text, cfg, drv, stream, {"eqs": 2, "unary": 1, "nary": 1})
-    plan = [("main", 260 if quick else 5000), ("elsewhen", 25 if quick else 300), ("signed-attr", 25 if quick else 300),
-            ("unsupported", 20 if quick else 200)]
+    plan = [("main", 480 if quick else 12000), ("elsewhen", 40 if quick else 600), ("signed-attr", 40 if quick else 600),
+            ("unsupported", 30 if quick else 400), ("arrays", 20 if quick else 300)]
     for stream, n in plan:
         for i in range(n):
             if ctx.time_left() < 0:
